@@ -118,7 +118,7 @@ def run(chk, repo, tier):
 
     # merge helpers against the bounding box
     for fn in ('_merge_shape', '_merge_offset', '_merge_slices'):
-        f, paths, _ = analyse(repo, f'field.{fn}')
+        f, paths, _ = analyse(repo, f'field.{fn}', inline=[k.key for k in repo.all_functions() if k.module.name == 'extent'])
         rets = returns(paths)
         calls = [c for p in rets for c in p.calls('field.boundary')]
         if not calls:
@@ -229,8 +229,8 @@ def run(chk, repo, tier):
     _, paths, _ = analyse(repo, fm)
     okm, det, nn = True, '', 0
     for p in returns(paths):
-        if not any(pol for c, pol, _ in p.conds):
-            continue
+        if not p.calls('extent.intersection_slices') and not p.calls('extent.intersection_shift'):
+            continue        # the non-overlapping branch
         nn += 1
         r = p.ret
         bc = [e for e in p.calls('field._mul_broadcast')]
@@ -321,21 +321,34 @@ def disjoint_rules(chk, repo):
            '' if ok_fin else f'{len(final)} non-recursive exits', fd.loc())
     fr = repo.func('field.reduce')
     _, paths, _ = analyse(repo, fr)
-    okr = False
+    merged = single = False
+    recognised = False
+
+    def classify(v, conds):
+        nonlocal merged, single, recognised
+        a = v.single_atom() if isinstance(v, Poly) else None
+        lens = [(c, pol) for c, pol in conds if any(is_app(x, 'len') for x in nf.value_atoms(c))]
+        if len(lens) != 1:
+            return
+        c, pol = lens[0]
+        ca = c.single_atom()
+        # lt(1, len(group)) i.e. len(group) > 1
+        if not (ca is not None and is_app(ca, 'lt') and ca[2][0] == C(1)):
+            return
+        recognised = True
+        if a is not None and is_app(a, 'call:field._merge') and pol:
+            merged = True
+        elif a is not None and a[0] == 'idx' and a[2] == C(0) and not pol:
+            single = True
     for p in returns(paths):
-        lps = [lp for lp in p.state.loops if lp['func'] == fr.key]
-        for lp in lps:
-            merged = single = False
+        for lp in [lp for lp in p.state.loops if lp['func'] == fr.key]:
             for bs, conds in zip(lp['states'], lp['conds']):
                 for e in bs.events[lp['n_pre_events']:]:
                     if e.kind == 'write' and e.data.get('how') == 'method:append':
-                        v = e.data['args'][0]
-                        a = v.single_atom() if isinstance(v, Poly) else None
-                        pol = [pl for c, pl, _ in conds]
-                        if a is not None and is_app(a, 'call:field._merge') and pol == [True]:
-                            merged = True
-                        elif a is not None and a[0] == 'idx' and pol == [False]:
-                            single = True
-            okr = okr or (merged and single)
+                        classify(e.data['args'][0], [(c, pl) for c, pl, _ in conds])
+        ra = p.ret.single_atom() if isinstance(p.ret, Poly) else None
+        if ra is not None and is_app(ra, 'listcomp'):
+            classify(ra[2][0], [(c, pl) for c, pl, _ in p.conds])
+    okr = (merged and single) if recognised else None
     chk.ob('C06-f', 'structural', fr.key, 'groups with more than one member are merged, singletons passed through', okr,
            '', fr.loc())
